@@ -127,6 +127,9 @@ func c20Exec(op string) string {
 	if name == "wfrom" || name == "wat" || name == "wpfk" {
 		return c20WrapExec(c, name)
 	}
+	if isValueOp(name) {
+		return c20ValueExec(c, name)
+	}
 	c.pos++ // "legacy"
 	doc := []byte(c.str())
 	jtxt := []byte(c.str())
@@ -609,6 +612,9 @@ func valuesNoAttrs(m interface{}, keys []string) []interface{} {
 
 func c20Describe(op string) string {
 	c, name := newCur(op)
+	if isValueOp(name) {
+		return c20ValueDescribe(c, name)
+	}
 	if name == "wfrom" || name == "wat" || name == "wpfk" {
 		m := c.mapVal()
 		arg := c.str()
@@ -630,6 +636,9 @@ func c20Describe(op string) string {
 }
 
 func c20Judge(op, impl, model string) Verdict {
+	if _, name := newCur(op); isValueOp(name) {
+		return c20ValueJudge(op, impl, model)
+	}
 	if _, name := newCur(op); name == "wfrom" || name == "wat" || name == "wpfk" {
 		v := Verdict{Tags: []string{name}}
 		if strings.HasPrefix(impl, "panic") {
@@ -720,6 +729,9 @@ func c20Gen(r *Rng, n int) []string {
 			}
 			wm := r.RootMap(&cfg)
 			ms := enc(wm)
+			if !hasEmptyKey(wm) {
+				ops = append(ops, c20ValueOps(r, wm, cfg.Keys)...)
+			}
 			for j := 0; j < 2; j++ {
 				wp := r.DerivedPath(wm, false, 4)
 				if strings.Contains(wp, "[") || hasEmptyKey(wm) {
